@@ -66,6 +66,16 @@ CHECKS = {
         "note": "block strings (BlockStringValue) are outside: unescape_block_string goes through the memchr crate and symbolic-length line "
                 "splitting; two or more symbolic bytes do not finish (measured); the compiler-side storage of the values is outside.",
     },
+    "C09": {
+        "engine": "kani",
+        "technique": "bounded model checking (Kani/CBMC) of the serializer's quoted-string path; output judged by the reference lexer and the spec's StringValue semantics",
+        "text": "quoted form only: for every string prefix ++ [b] (2 prefixes quick, 15 thorough; b = every byte < 0x80 incl. control "
+                "characters, quote, backslash, tab, LF, CR) Value::String(..).serialize().no_indent() writes exactly one lexically valid "
+                "StringValue token whose decoded value is the original string.",
+        "design_ref": "DESIGN.md section 4, C09",
+        "note": "'parses back' is judged by the reference lexer + spec decoding (C03/C06 tie those to the real lexer and unescape_string); the "
+                "block-string form (indentation on, strings with newlines, descriptions), other nesting positions and longer strings are outside.",
+    },
     "C10": {
         "engine": "kani",
         "technique": "bounded model checking (Kani/CBMC) against byte-level reference grammars",
@@ -97,6 +107,18 @@ CHECKS = {
         "note": "Schema::is_subtype stubbed by an arbitrary relation; <Type as Clone>::clone stubbed by a bounded structural copy in the "
                 "variable-usage harnesses; that validation calls these predicates at every site is outside the claim.",
     },
+    "C30": {
+        "engine": "kani",
+        "technique": "bounded model checking (Kani/CBMC) with pointer checks on, over bounded operation histories",
+        "text": "heap-backed Name: every history of k <= 3 (4 thorough) operations {clone, drop, with_location(any span), to_cloned_arc, "
+                "into Arc<str>, swap} keeps the backing Arc's strong count at 1 + live names (no leak, no premature free, no dangling "
+                "or double free: CBMC pointer checks), text/location read back as supplied, tag preserved; creation paths; Eq/Ord/Hash "
+                "ignore locations.  Node<u32>: histories k <= 3 (5) of {clone, drop, make_mut, get_mut}: copy-on-write never changes the "
+                "other handle, get_mut refuses exactly when shared; Eq/Hash ignore locations; Node<str>, same_location.",
+        "design_ref": "DESIGN.md section 4, C30",
+        "note": "single-threaded histories only (Kani has no thread model); std::sync::Arc and triomphe::Arc are trusted; one harness per "
+                "Node instantiation (u32, u64, str).",
+    },
     "C31": {
         "engine": "kani+mir2smt",
         "technique": "bounded model checking (Kani/CBMC, full 63-bit domain) + MIR->SMT (z3, cvc5) with symbolic thread schedule",
@@ -117,7 +139,6 @@ NOT_APPLICABLE = {
     "C05": "every grammar production needs >= 3 tokens of symbolic input; " + _P,
     "C07": "needs parse_type / parse_selection_set on symbolic suffixes; measured: no symbolic dimension survives the parser (see C01/C02); " + _P,
     "C08": "parser + fmt pretty-printer + parser again; " + _P,
-    "C09": "serialize_string_value writes through core::fmt::Formatter and the way back goes through the lexer; " + _P,
     "C11": "check not built yet in this commit (planned: get_line_column on <= 3 chars)",
     "C12": _S + "; also " + _P,
     "C13": "SchemaBuilder/ExecutableDocumentBuilder over IndexMap; " + _S,
@@ -135,7 +156,6 @@ NOT_APPLICABLE = {
     "C26": "resolver trait objects, JSON maps, async core; " + _S,
     "C27": "schedules of futures: Kani models neither executors nor wake-ups, and the code is far beyond the MIR translator",
     "C28": "coerce_variable_values walks Schema types and serde_json_bytes maps; " + _S,
-    "C30": "check not built yet in this commit (planned: Name/Node op histories with pointer checks)",
     "C32": "whole-program generator over arbitrary::Unstructured + Schema; " + _S,
     "C33": "whole-program generator over Schema + rand; " + _S,
 }
